@@ -246,9 +246,16 @@ def serialiser_structure(chk, prog):
         chk.floor(fn.split("::")[-1], 1 if b else 0, 1)
         if not b:
             continue
-        its = [t for blk, t in b.calls_to(r"slice::<impl \[T\]>::iter$")]
-        bad = b.calls_to(r"::(rev|sort|sort_by|skip|take|step_by|filter)$")
-        chk.ob("R6.serialiser", fn, "elements are written in stored order", bool(its) and not bad, f"{[t['callee'] for _, t in bad]}")
+        its = [(blk, t) for blk, t in b.calls_to(r"slice::<impl \[T\]>::iter$") if core.desc_contains(core.describe(prog, b, t["args"][0]), lambda y: y[0] == "param" and y[1] == 1)]
+        # adaptors applied to the iteration over the elements themselves (not to unrelated iterators such as the indentation)
+        bad = []
+        for blk2, t2 in b.calls():
+            if t2["args"] and core.call_matches(t2, r"Iterator>?::(next|fold|for_each|map|collect)$|IntoIterator>?::into_iter$"):
+                d2 = core.describe(prog, b, t2["args"][0])
+                if any(core.desc_contains(d2, lambda y: y[0] == "call" and len(y) > 3 and y[3] == ib) for ib, _ in its):
+                    bad += [c[1] for c in core.desc_calls(d2) if core.re.search(r"::(rev|sort|sort_by|skip|take|step_by|filter|skip_while|take_while|filter_map)$", c[1])]
+        bad += [t2["callee"] for blk2, t2 in b.calls_to(r"<impl \[T\]>::(sort|sort_by|sort_by_key|sort_unstable|reverse)$")]
+        chk.ob("R6.serialiser", fn, "elements are written in stored order", bool(its) and not bad, f"{sorted(set(bad))}")
         lits = set()
         for c in [b] + prog.all_closures_of(fn):
             for blk, t in c.calls():
@@ -265,7 +272,13 @@ def serialiser_structure(chk, prog):
             chk.ob("R6.serialiser", fn, f"separator {s!r} is written", s in lits or (s + " ") in lits, f"literal pieces {sorted(lits)}")
         chk.ob("R6.serialiser", fn, f"delimiters {open_!r} {close_!r} and the empty form", open_ in lits and close_ in lits and (open_ + close_) in lits, f"{sorted(lits)}")
         if ":" in seps:
-            ks = [c for c in prog.all_closures_of(fn) if c.calls_to(r"serialize::string_to_string$")]
+            fam_ = [b] + prog.all_closures_of(fn)
+            ks = [c for c in fam_ if c.calls_to(r"serialize::string_to_string$")]
+            # also as a function value: `key.map(string_to_string)`
+            for c in fam_:
+                for blk2, t2 in c.calls():
+                    if any(a.get("k") == "const" and str(a.get("fn") or "").endswith("serialize::string_to_string") for a in t2["args"]):
+                        ks.append(c)
             chk.ob("R6.serialiser", fn, "object keys are escaped with string_to_string", bool(ks), "")
 
 
@@ -361,8 +374,10 @@ def unicode_escapes(chk, prog):
                 ok = isinstance(arr, tuple) and arr[0] == "array" and len(arr[1]) == 2 and [unit_key(x) for x in arr[1]] == us and len(us) == 2
                 chk.ob("R8.unicode_escape", fn, "pair: char::decode_utf16([first unit, second unit]), units in reading order", ok,
                        f"decode_utf16 argument {panics.short_desc(arr) if arr else None}", where=b.where(blk))
-                errs = desc_contains(alt, lambda y: y[0] == "call" and y[1].endswith("::ok_or_else")) and desc_contains(alt, lambda y: y[0] == "call" and y[1].endswith("::map_err"))
-                chk.ob("R8.unicode_escape", fn, "pair: a missing or invalid decode result is an error (never a replacement character)", errs and not desc_contains(alt, lambda y: y[0] == "call" and core.re.search(r"unwrap_or|lossy|REPLACEMENT", y[1]) is not None), "", where=b.where(blk))
+                # the decoded unit is used only when decode_utf16 yielded Some(Ok(c)); nothing substitutes a character for a failure
+                subst = desc_contains(alt, lambda y: y[0] == "call" and core.re.search(r"unwrap_or|unwrap_or_default|unwrap_or_else|lossy|REPLACEMENT", y[1]) is not None) or \
+                    bool(b.calls_to(r"char::REPLACEMENT_CHARACTER|decode_utf16_lossy|from_utf16_lossy"))
+                chk.ob("R8.unicode_escape", fn, "pair: a missing or invalid decode result is an error (never a replacement character)", not subst, "", where=b.where(blk))
             elif fu and len(us) == 1:
                 arg = fu[0][2][0]
                 a = affine(arg)
